@@ -1608,6 +1608,70 @@ func c02ObserverCompaction(c *Ctx, g *gossipAnchors, rule string) {
 				"observer-side compaction is wrong at "+p.pos(w.instr.Pos())+": "+bad+"; facts "+factStrings(facts))
 		}
 	}
+	// the purge happens whenever a compaction marker was stored and parsed: every path from a successful
+	// parse of a received entry's value reaches the scan of that node's entries (or a helper that contains it)
+	for _, fn := range sortedFuncs(all) {
+		allInstrs(fn, func(i ssa.Instruction) {
+			parse, ok := i.(*ssa.Call)
+			if !ok || commonName(&parse.Call) != "strconv.ParseUint" {
+				return
+			}
+			if _, ok := loadedField(parse.Call.Args[0], g.eValue); !ok {
+				return
+			}
+			var cvv, perr ssa.Value
+			for _, r := range *parse.Referrers() {
+				if ex, ok := r.(*ssa.Extract); ok {
+					if ex.Index == 0 {
+						cvv = ex
+					} else {
+						perr = ex
+					}
+				}
+			}
+			if cvv == nil {
+				return
+			}
+			isScan := func(in ssa.Instruction) bool {
+				if rg, ok := in.(*ssa.Range); ok {
+					_, isEntries := loadedField(rg.X, g.entriesF)
+					return isEntries
+				}
+				// a helper that receives the parsed version and contains a removal of entries
+				if cc := callCommon(in); cc != nil {
+					if sc := cc.StaticCallee(); sc != nil && inModule(sc) {
+						for _, a := range cc.Args {
+							if strip(a) == cvv {
+								for _, w := range all[sc] {
+									if w.kind == "entries-delete" {
+										return true
+									}
+								}
+							}
+						}
+					}
+				}
+				return false
+			}
+			paths, complete := enumPaths(parse, isScan, nil, func(pa *fpath) bool { return len(pa.seen) > 0 }, 400)
+			bad := ""
+			if !complete {
+				bad = "too many paths"
+			}
+			for _, pa := range paths {
+				if len(pa.seen) > 0 || pa.endWhy == "panic" || infeasible(pa.facts) {
+					continue
+				}
+				if perr != nil && anyFact(pa.facts, func(f Fact) bool {
+					return cmpFact(f, token.NEQ, func(v ssa.Value) bool { return strip(v) == perr }, isNilConst)
+				}) {
+					continue // unparsable marker
+				}
+				bad = "a path from a successfully parsed compaction marker ends at " + p.pos(pa.end.Pos()) + " without scanning the node's entries; facts " + factStrings(pa.facts)
+			}
+			c.check(bad == "", rule, fnName(fn)+"/compaction-always-purges", parse.Pos(), "every received, parsable compaction marker leads to the purge", "the purge of compacted entries can be skipped: "+bad+" - keys whose deletion marker was compacted away stay visible although the observer's version says it has caught up")
+		})
+	}
 	if n == 0 {
 		c.fail(rule, "observer-compaction", token.NoPos, "no removal of compacted entries from a remote node's state found: keys whose deletion marker was compacted away are reported forever")
 	}
